@@ -13,7 +13,7 @@ from typing import Dict, FrozenSet, List, Optional, Set, Tuple
 from ..core import AnalysisError, Loc, Report, Source, norm
 from ..mediator_rules import check_run_loops
 from ..pyfront import Program, body_without_docstring, param_names, self_attr
-from ..guards import path_conditions
+from ..guards import atoms, path_conditions
 from ..normalize import canon, flat
 from ..resolve import Resolver, split_atom
 from ..selftest import Edit
@@ -202,6 +202,13 @@ def check_parent_protocol(prog: Program, rep: Report) -> None:
                     vals = {r_.attr}
                 elif isinstance(r_, (ast.Tuple, ast.List, ast.Set)) and all(isinstance(x, ast.Attribute) for x in r_.elts):
                     vals = {x.attr for x in r_.elts}
+                elif self_attr(r_) or isinstance(r_, ast.Name):
+                    # a class-level / module-level constant holding a tuple of stages
+                    cname = self_attr(r_) or r_.id
+                    for st_ in list(mp.node.body) + list(mp.module.tree.body):
+                        if isinstance(st_, ast.Assign) and any(isinstance(t_, ast.Name) and t_.id == cname for t_ in st_.targets) \
+                                and isinstance(st_.value, (ast.Tuple, ast.List, ast.Set)) and all(isinstance(x, ast.Attribute) for x in st_.value.elts):
+                            vals = {x.attr for x in st_.value.elts}
                 if vals is not None:
                     if isinstance(op, (ast.Eq, ast.In, ast.Is)):
                         return norm(l.slice), frozenset(vals)
@@ -399,21 +406,49 @@ def check_parent_protocol(prog: Program, rep: Report) -> None:
         raise AnalysisError("run_in_process not found")
     wloc = Loc(MPM, worker.lineno, "run_in_process")
     binds = [n for n in ast.walk(worker) if isinstance(n, ast.Assign) and self_attr(n.targets[0]) in ("send_event_time", "send_out_state")]
-    for bnd in binds:
-        which = self_attr(bnd.targets[0])
-        v = bnd.value
-        ok = False
-        if isinstance(v, ast.IfExp):
-            t = norm(v.test)
-            count = "number_send_event_time_arguments" if which == "send_event_time" else "number_send_out_state_arguments"
-            no_args, with_args = (v.body, v.orelse) if t.endswith("== 0") else (v.orelse, v.body)
-            ok = count in t and "without_arguments" in norm(no_args) and "with_arguments" in norm(with_args) \
-                and f"self.{which}" in norm(no_args) and f"self.{which}" in norm(with_args)
-            unpack = [a for a in ast.walk(with_args) if isinstance(a, ast.Constant) and isinstance(a.value, bool)]
-            ok = ok and len(unpack) == 1 and unpack[0].value == (which == "send_out_state")
-        rep.ob("R20.2-worker-wrapping", ok, Loc(MPM, bnd.lineno, "run_in_process"), bnd,
-               f"the worker must wrap {which} so that it receives from the pipe exactly when the method takes arguments "
-               f"(unpacked for send_out_state, as one in-state for send_event_time) and always sends its result")
+    wrapped: Set[str] = set()
+    for which in ("send_event_time", "send_out_state"):
+        count = "number_send_event_time_arguments" if which == "send_event_time" else "number_send_out_state_arguments"
+        # (value used when the method takes no arguments, value used when it takes arguments): from a conditional expression or
+        # from the two branches of an if statement on the argument count
+        pairs = []
+        for bnd in [b_ for b_ in binds if self_attr(b_.targets[0]) == which]:
+            if isinstance(bnd.value, ast.IfExp):
+                pairs.append((bnd.value.test, bnd.value.body, bnd.value.orelse, bnd))
+        for st_ in ast.walk(worker):
+            if isinstance(st_, ast.If) and st_.orelse:
+                tb = [b_ for b_ in st_.body if isinstance(b_, ast.Assign) and self_attr(b_.targets[0]) == which]
+                eb = [b_ for b_ in st_.orelse if isinstance(b_, ast.Assign) and self_attr(b_.targets[0]) == which]
+                if len(tb) == 1 and len(eb) == 1:
+                    pairs.append((st_.test, tb[0].value, eb[0].value, tb[0]))
+        for test, then_v, else_v, bnd in pairs:
+            at = atoms(test)
+            sp = split_atom(at[0]) if len(at) == 1 else None
+            t = norm(test)
+            none_then = None
+            if sp is not None and sp[0].endswith(count) and sp[2] == "0" and sp[1] in ("==", "!="):
+                none_then = sp[1] == "=="
+            elif sp is not None and sp[2].endswith(count) and sp[0] == "0" and sp[1] in ("==", "!=", "<"):
+                none_then = sp[1] == "=="
+            elif t.endswith(count):
+                none_then = False            # `if self.number_..._arguments:` -> then-branch is the with-arguments case
+            elif t == f"not self.{count}":
+                none_then = True
+            ok = False
+            if none_then is not None:
+                no_args, with_args = (then_v, else_v) if none_then else (else_v, then_v)
+                ok = "without_arguments" in norm(no_args) and "with_arguments" in norm(with_args) \
+                    and f"self.{which}" in norm(no_args) and f"self.{which}" in norm(with_args)
+                unpack = [a for a in ast.walk(with_args) if isinstance(a, ast.Constant) and isinstance(a.value, bool)]
+                ok = ok and len(unpack) == 1 and unpack[0].value == (which == "send_out_state")
+            if ok:
+                wrapped.add(which)
+            rep.ob("R20.2-worker-wrapping", ok, Loc(MPM, bnd.lineno, "run_in_process"), bnd,
+                   f"the worker must wrap {which} so that it receives from the pipe exactly when the method takes arguments "
+                   f"(unpacked for send_out_state, as one in-state for send_event_time) and always sends its result")
+        if not pairs:
+            rep.ob("R20.2-worker-wrapping", None, wloc, which, "wrapping of the method on the argument count not recognised")
+    binds = list(wrapped)
     rep.ob("R20.2-worker-wrapping-both", len(binds) == 2, wloc, f"{len(binds)} wrapped methods", "both methods must be wrapped")
     for wname in ("_communicate_via_pipe_without_arguments", "_communicate_via_pipe_with_arguments"):
         fn = mod.functions.get(wname)
